@@ -7,7 +7,7 @@ import ast
 from ..core import Checker, Rule, attr_calls, callee_is, calls_in, resolved_calls, short
 from ..interp import Pins, find_nodes, unparse
 from ..model import AnalysisError
-from .util import enclosing_loop, enclosing_stmt, every_iteration_reaches, fmt, is_const, loop_targets_with_origin, parent, returns_of, self_attr_for_param, single_def
+from .util import enclosing_loop, enclosing_stmt, every_iteration_reaches, fmt, is_const, loop_targets_with_origin, parent, returns_of, same, self_attr_for_param, single_def
 
 P = ("C08", "C01", "C06")
 CLS = "cleanup:CleanupTranslator"
@@ -408,20 +408,35 @@ def r_local_superseed(ck: Checker) -> None:
     pred = func.params()[1]
     calls = resolved_calls(ck.prg, func, f"ngo.{CLS}._create_mappings")
     ck.need(len(calls) >= 3, "_compute_local_superseed creates mappings for head-aggregate elements, choice/disjunction elements and the body")
+    rule_p = func.params()[2]
+    want_body = f"[lit for lit in {rule_p}.body if lit.ast_type == ASTType.Literal and lit.atom.ast_type == ASTType.SymbolicAtom and lit.atom.symbol.ast_type == ASTType.Function]"
+    inlined_body = False
+    head_list = None
     for call in calls:
         texts = it.texts(call, call.args[1])
         sym = it.texts(call, call.args[0])
-        ok = all(t.endswith(".condition") or t.endswith(".condition.condition") or "_collect_top_level_body_symbols" in t for t in texts)
+        lp_c = enclosing_loop(func, call)
+        while lp_c is not None and not isinstance(lp_c.iter, ast.Name):  # type: ignore[union-attr]
+            lp_c = enclosing_loop(func, lp_c)
+        local_def = single_def(func, unparse(call.args[1])) if isinstance(call.args[1], ast.Name) else None
+        if local_def is not None and same(unparse(local_def), want_body):
+            texts = {"<plain body atoms of the rule>"}  # the collector written out in place
+            inlined_body = True
+        if any("_collect_top_level_body_symbols" in t or t.startswith("<plain") for t in texts) and lp_c is not None and isinstance(lp_c.iter, ast.Name):
+            head_list = lp_c.iter.id
+        ok = all(t.endswith(".condition") or t.endswith(".condition.condition") or "_collect_top_level_body_symbols" in t or t.startswith("<plain") for t in texts)
         ck.add("implied literals are conditions of the same element or the rule body", ok, func, call, f"`{fmt(call)}` with literals {sorted(texts)}", "a head atom implies only what its own rule (and its own element condition) requires")
         if any(t.endswith(".condition") or t.endswith(".condition.condition") for t in texts):
             # element branch: the symbol must belong to the requested predicate
             sname = unparse(call.args[0])
             ck.guard("element mappings only for the requested predicate", func, call, f"{pred} == Predicate({sname}.name, len({sname}.arguments))", "mappings of other head atoms must not be mixed into this predicate's intersection")
     # head_symbols.append guarded by predicate equality
-    for app in attr_calls(func, "append"):
+    for app in [a for a in attr_calls(func, "append") if head_list is None or unparse(a.func.value) == head_list]:  # type: ignore[attr-defined]
         sname = unparse(app.args[0])
         ck.guard("head symbols are those of the requested predicate", func, app, f"{pred} == Predicate({sname}.name, len({sname}.arguments))", "the body of the rule is implied by the atoms of this predicate only")
     # top-level body symbols: positive or negative predicate literals only (no aggregates, no conditionals)
+    if inlined_body:
+        return  # checked above on the comprehension that replaces the collector
     coll = ck.func(f"{CLS}._collect_top_level_body_symbols")
     itc = ck.interp(coll)
     ys = find_nodes(coll.node, lambda n: isinstance(n, ast.Yield))
